@@ -23,7 +23,7 @@ open YaegiVerif YaegiVerif.Const YaegiVerif.Proofs.C03
     /repo/interp/typecheck.go, are the ones the proofs use -/
 theorem reprfacts_tie : Generated.C03.reprFacts = Expected.C03.reprFacts := by decide
 
-/-- tie: the `constOp` map of cfg.go (comparisons included, d04f498), for each folding function the go/constant entry
+/-- tie: the `constOp` map of cfg.go (comparisons included, b3f92e0), for each folding function the go/constant entry
     point and token it uses, whether it wraps its operands in `constant.ToInt`, the Go operator of each typed arm, the
     integer-quotient switch of `quoConst`, the `constToken` table of typecheck.go, and the twenty `CheckFacts` about
     the checks that the repairs of the third round put around the folds (constExpr / constOverflow framing of both
@@ -132,10 +132,10 @@ def evalY_full_statement : Prop :=
     interpreter has **exactly the outcome of the Go specification** — the same value with the same type (an untyped
     kind or a basic type; held as a go/constant value while untyped, as a reflect value of the kind once typed), or
     a compile error on both sides: mismatched operand types, an operand or a result that is not representable in the
-    operand type (typed arithmetic is recomputed exactly by `check.constExpr` since 5e2cd1c: `int8(100) + int8(100)`,
+    operand type (typed arithmetic is recomputed exactly by `check.constExpr` since 31bf1d3: `int8(100) + int8(100)`,
     `-uint8(1)`, `int64(1) << 63` are rejected), a constant zero divisor (typed ones included), a conversion of a typed
-    or untyped constant that does not fit (7402c20), an untyped result of more than 512 bits or a shift count above
-    1074 (b425d98). The quotient goes through the operand conversions like every other operator (4bcc5b4), so
+    or untyped constant that does not fit (e6c1f4a), an untyped result of more than 512 bits or a shift count above
+    1074 (eeab028). The quotient goes through the operand conversions like every other operator (6f2f5cf), so
     `'a' / 2` is a rune constant: the former side condition `noRuneQuo` is gone, and so is the restriction to
     expressions that Go accepts. Proved by structural induction (Proofs/C03Main.lean `evalY_int_rel`, node lemmas
     `binNode_rel`, `shiftNode_rel`, `unNode_rel`, `convNode_rel`). The only side condition left is `litBound`. -/
@@ -230,7 +230,7 @@ theorem before_round3_witness :
 
 set_option exponentiation.threshold 1024 in
 set_option maxRecDepth 8000 in
-/-- the limits of the toolchain (F03-9, fixed by b425d98): `1 << 600 >> 599` is rejected by both sides (it was 2);
+/-- the limits of the toolchain (F03-9, fixed by eeab028): `1 << 600 >> 599` is rejected by both sides (it was 2);
     a shift count above 1074 is rejected however small the result -/
 example :
     evalY Expected.C03.facts { iota := 0 } none (.bin .shr (.bin .shl (.int 1) (.int 600)) (.int 599)) = .reject ∧
@@ -266,7 +266,7 @@ theorem quo_before_F48_witness :
     `var v int = (7/2)*2` is 6, `var c = (2/3)-(16|17)` is −17, `const c = 7/2 + 0.5` is 3.5 (all three walks),
     `const c = int8(1) + 7/2` is 4, a floating-point operand still gives the real quotient (`7/2.0` is 3.5),
     `const c int = 3 * (1)` is 3 (F03-16), `const c = float64(0.5 + 0.25)` is 0.75 (the former replay of F03-14: the
-    operand of the conversion is an untyped constant again in the later walks, 7973ebe) -/
+    operand of the conversion is an untyped constant again in the later walks, 3f5ccd5) -/
 example :
     varDeclY Expected.C03.facts (some .f64) (.bin .quo (.int 3) (.int 2)) = .ok (.flt ⟨1, 1⟩, .f64) ∧
     Spec.declGo 0 (some .f64) (.bin .quo (.int 3) (.int 2)) = .ok (.flt ⟨1, 1⟩, .f64) ∧
@@ -284,9 +284,9 @@ example :
     Spec.declGo 0 none (.conv .f64 (.bin .add (.flt ⟨1, 2⟩) (.flt ⟨1, 4⟩))) = .ok (.flt ⟨3, 4⟩, .f64) := by decide
 
 /-- the regression programs of the repairs of the third round outside the integer fragment, model = specification:
-    `const c = 1 < 2` is true (F03-10, d04f498: before, the comparison was not folded and outside the model),
-    `const c = 8 >> float32(2)` is 2 (F03-13, 04c8232: before, rejected), `var c = uint64(-1 << len("ab"))` is rejected
-    (F03-15, 3d1d9b9: before, `len` was a run-time call), `const c = float32(3e38) * 10` is rejected (F03-12: before,
+    `const c = 1 < 2` is true (F03-10, b3f92e0: before, the comparison was not folded and outside the model),
+    `const c = 8 >> float32(2)` is 2 (F03-13, ce5712d: before, rejected), `var c = uint64(-1 << len("ab"))` is rejected
+    (F03-15, a2a892e: before, `len` was a run-time call), `const c = float32(3e38) * 10` is rejected (F03-12: before,
     +Inf — outside the model) -/
 example :
     constDeclY Expected.C03.facts none (.bin .lt (.int 1) (.int 2)) = .ok [(.bool true, .bool)] ∧
@@ -307,13 +307,13 @@ example :
 
 /-- **`var c = e` at package level, both directions**, for every expression of the integer fragment: the model of the
     declaration *equals* the specification — the value with Go's default type (`int32` for a rune constant:
-    `var c0 = 'a'`, F03-5 fixed by ebd86cd; the former restriction `noRune` is gone), a compile error when the constant
+    `var c0 = 'a'`, F03-5 fixed by b080dc4; the former restriction `noRune` is gone), a compile error when the constant
     does not fit its default type or when the specification rejects `e`. -/
 theorem var_decl_exact (e : CExpr) (hshape : intShape e = true) (hl : litBound e = true) :
     varDeclY Expected.C03.facts none e = Spec.declGo 0 none e :=
   Proofs.C03.var_decl_exact e hshape hl
 
-/-- non-vacuity: `var c0 = 'a'` is 97 of type int32 on both sides (int with the code before ebd86cd) -/
+/-- non-vacuity: `var c0 = 'a'` is 97 of type int32 on both sides (int with the code before b080dc4) -/
 example :
     varDeclY Expected.C03.facts none (.rune 97) = .ok (.int 97, .i .int32) ∧
     Spec.declGo 0 none (.rune 97) = .ok (.int 97, .i .int32) ∧
@@ -347,7 +347,7 @@ theorem iota_block_generated (F : Facts) (specs : List Spec)
 /-- **`const c = e` at package level, untyped integer expressions** (integer and rune literals, iota, unary and
     binary integer operators including shifts and quotients of rune constants, parentheses; no conversions): the three
     walks of the declaration (gta on the block, gta on the spec, cfg — the later ones with the type of the first pushed
-    down every operator, which changes nothing since an operation on untyped constants stays untyped, 7973ebe:
+    down every operator, which changes nothing since an operation on untyped constants stays untyped, 3f5ccd5:
     `evalY_ufrag_indep`) and the use of the constant yield exactly the value and default type of the specification,
     for every `iota`, whether or not `sc.types` is still empty. -/
 theorem const_decl_correct (i : Nat) (e : CExpr) (hs : ufrag e = true) (hl : litBound e = true)
@@ -410,7 +410,7 @@ example : blockY Expected.C03.facts Expected.C03.declFacts exBlock =
 /-- **`T(e)`, both directions**, for every expression `e` of the integer fragment — typed or untyped — and every
     integer type `T`: the instance of `evalY_eq_spec_partial` for a conversion at the top. `int8(200)`, `uint8(-1)`,
     `int64(1 << 63)` are rejected (untyped operand, `representableConst`), and so are `int8(int16(300))`,
-    `uint8(int8(-1))` (typed operand: a constant conversion since 7402c20). -/
+    `uint8(int8(-1))` (typed operand: a constant conversion since e6c1f4a). -/
 theorem conv_exact (i : Nat) (e : CExpr) (hshape : intShape e = true) (hl : litBound e = true) (k : IKind) :
     Class.compare (evalY Expected.C03.facts { iota := i } none (.conv (.i k) e)) (Spec.evalGo i (.conv (.i k) e)) = .same :=
   evalY_eq_spec_partial { iota := i } rfl (.conv (.i k) e) (by simpa [intShape] using hshape) (by simpa [litBound] using hl)
@@ -430,7 +430,7 @@ example :
 
 /-- **`var c T = e` at package level, both directions**, `T` any integer type, `e` an untyped operator expression
     (`ufrag`: `var c0 uint8 = 100 - 101`, `var v int = (7/2)*2` — the operator node stays untyped under the declared
-    type and the assignment performs the conversion and its check, F03-2 fixed by 7973ebe) or an initialiser on which
+    type and the assignment performs the conversion and its check, F03-2 fixed by 3f5ccd5) or an initialiser on which
     the pushed-down type has no effect for syntactic reasons (`declShape`: literals, unary operators, parentheses,
     conversions of any integer-fragment expression): the model of the declaration *equals* the specification —
     Go's value when the constant is representable in `T` (or already has type `T`), a compile error otherwise, and
